@@ -141,6 +141,7 @@ Inductive drow :=
 | D_Walk                                   (* ast::walk_stmt(self, stmt) *)
 | D_Skip                                   (* {} *)
 | D_Unimpl                                 (* unimplemented!(..) *)
+| D_Reject                                 (* let e = self.ctx.emitter.emit(error!(..)); self.errors.set(e) *)
 | D_Check (f : checkfn) (walk_block : bool)  (* if let Err(e) = self.check_..(..) { self.errors.set(e) } [; walk_block] *)
 | D_Unrec.
 Inductive irow :=
@@ -511,6 +512,7 @@ Section Check.
     match tc_stmt D (kind_of s) with
     | D_Skip => TOk
     | D_Unimpl => TPanic
+    | D_Reject => TErr
     | D_Unrec => TPanic
     | D_Check f wb => join (of_outcome (apply_check f cur s)) (if wb then own_blocks else TOk)
     | D_Walk =>
